@@ -341,3 +341,120 @@ Proof.
   destruct (text_in_range m a); [|split; reflexivity].
   destruct (par =? 0); cbn [vs_ch vs_at]; split; try reflexivity; apply upd_other; exact Hne.
 Qed.
+
+(* ---------------------------------------------------------------- graphics statements and PCOPY *)
+Lemma wf_gmode_mode m : wf_gmode m = true -> wf_mode m = true /\ vm_kind m <> 3.
+Proof.
+  intros W. unfold wf_mode. destruct (wf_kind m W) as [K | [K | K]]; rewrite K; split; try exact W; discriminate.
+Qed.
+
+(* the reader of an address only looks at the pixels the address covers *)
+Lemma byte_spec_ext m st1 st2 a : wf_gmode m = true ->
+  vs_plane st1 = vs_plane st2 ->
+  (forall p y x, covers m a p y x -> vs_px st1 p y x = vs_px st2 p y x) ->
+  byte_spec m st1 a = byte_spec m st2 a.
+Proof.
+  intros W Hpl Hpx. destruct (wf_gmode_mode m W) as [_ K3].
+  unfold byte_spec. replace (vm_kind m =? 3) with false by lia.
+  unfold covers in Hpx.
+  destruct (vmem_get_coords m a) as [[p x] y]. destruct (vmem_coord_ok m p x y) eqn:Ok; [|reflexivity].
+  assert (Hk : forall k, 0 <= k < peff m -> vs_px st1 p y (x + k) = vs_px st2 p y (x + k)).
+  { intros k Hk. apply Hpx. repeat split; try reflexivity; lia. }
+  unfold reader. rewrite Hpl.
+  destruct (wf_kind m W) as [K | [K | K]]; rewrite K; cbn [Z.eqb Pos.eqb].
+  - assert (P : peff m = vm_ppb m) by (unfold peff; rewrite fac_not_tandy by lia; lia).
+    unfold cga_rd. apply pack_byte_ext. intros k Hk0. apply Hk. lia.
+  - destruct (memZ _ _); [|reflexivity]. destruct (ega_peff m W K) as [P _].
+    unfold ega_rd. apply pack_byte_ext. intros k Hk0. rewrite Hk by lia. reflexivity.
+  - assert (P : peff m = 8).
+    { unfold peff, fac. rewrite K. cbn [Z.eqb Pos.eqb]. unfold wf_gmode in W. rewrite K in W.
+      cbn [Z.eqb Pos.eqb] in W. lia. }
+    unfold tandy_rd. apply pack_byte_ext. intros k Hk0. rewrite Hk by lia. reflexivity.
+Qed.
+
+(* drawing (PSET, LINE) outside the pixels an address covers does not change what PEEK returns there *)
+Theorem draw_peek_outside m st a page y x w c : wf_gmode m = true ->
+  (forall k, 0 <= k < w -> ~ covers m a page y (x + k)) ->
+  peek m (draw_run st page y x w c) a = peek m st a.
+Proof.
+  intros W Hn. destruct (wf_gmode_mode m W) as [Wm K3].
+  rewrite !peek_spec by (try exact Wm; intros K; contradiction).
+  apply byte_spec_ext; [exact W | reflexivity |].
+  intros p y' x' Hc. unfold draw_run, with_px, set_run. cbn [vs_px].
+  destruct ((p =? page) && (y' =? y) && (x <=? x') && (x' <? x + w)) eqn:E; [|reflexivity].
+  exfalso. apply (Hn (x' - x)); [lia|].
+  replace (x + (x' - x)) with x' by lia.
+  assert (p = page /\ y' = y) as [-> ->] by lia. exact Hc.
+Qed.
+
+(* the pixels drawn are the ones PEEK packs (with C34_peek) *)
+Theorem draw_pixels st page y x w c k : 0 <= k < w ->
+  vs_px (draw_run st page y x w c) page y (x + k) = c.
+Proof.
+  intros Hk. unfold draw_run, with_px, set_run. cbn [vs_px].
+  replace ((page =? page) && (y =? y) && (x <=? x + k) && (x + k <? x + w)) with true by lia. reflexivity.
+Qed.
+
+(* PCOPY: the memory of the destination page then reads like the memory of the source page did *)
+Lemma coords_page_shift m a k : wf_gmode m = true ->
+  vmem_get_coords m (a + k * vm_page_size m) =
+  let '(p, x, y) := vmem_get_coords m a in (p + k, x, y).
+Proof.
+  intros W. pose proof (wf_pos m W) as (HB & HI & HR & HP & _ & Hf).
+  rewrite !coords_norm by exact W.
+  assert (HPS : vm_page_size m = fac m * (vm_interleave m * bsz m)).
+  { unfold wf_gmode in W. unfold bsz, fac in *.
+    destruct (wf_kind m W) as [K | [K | K]]; rewrite K in *; cbn [Z.eqb Pos.eqb] in *.
+    - rewrite Z.div_1_r. lia.
+    - rewrite Z.div_1_r. lia.
+    - assert (E : vm_bank_size m mod 2 = 0) by lia. pose proof (even_half _ E). lia. }
+  assert (Hq : itemno m (a + k * vm_page_size m) = itemno m a + k * vm_interleave m * bsz m).
+  { unfold itemno. rewrite HPS.
+    replace (a + k * (fac m * (vm_interleave m * bsz m)) - vm_seg m * 16)
+      with (a - vm_seg m * 16 + (k * vm_interleave m * bsz m) * fac m) by lia.
+    rewrite Z.div_add by lia. reflexivity. }
+  rewrite Hq. unfold lay, layN.
+  rewrite Z.div_add, Z.mod_add by lia.
+  rewrite Z.div_add, Z.mod_add by lia. reflexivity.
+Qed.
+
+Theorem pcopy_peek_other m st src dst a : wf_gmode m = true ->
+  (let '(p, x, y) := vmem_get_coords m a in p <> dst) ->
+  peek m (pcopy st src dst) a = peek m st a.
+Proof.
+  intros W Hp. destruct (wf_gmode_mode m W) as [Wm K3].
+  rewrite !peek_spec by (try exact Wm; intros K; contradiction).
+  apply byte_spec_ext; [exact W | reflexivity |].
+  intros p y x Hc. unfold covers in Hc. destruct (vmem_get_coords m a) as [[p0 x0] y0].
+  destruct Hc as (_ & -> & _). cbv beta iota in Hp. unfold pcopy, copy_page. cbn [vs_px].
+  replace (p0 =? dst) with false by lia. reflexivity.
+Qed.
+
+Theorem pcopy_peek m st src dst a x y : wf_gmode m = true ->
+  vmem_get_coords m a = (dst, x, y) ->
+  0 <= src < vmem_num_pages m -> 0 <= dst < vmem_num_pages m ->
+  peek m (pcopy st src dst) a = peek m st (a + (src - dst) * vm_page_size m).
+Proof.
+  intros W Hc Hs Hd. destruct (wf_gmode_mode m W) as [Wm K3].
+  rewrite !peek_spec by (try exact Wm; intros K; contradiction).
+  unfold byte_spec. replace (vm_kind m =? 3) with false by lia.
+  rewrite coords_page_shift by exact W. rewrite Hc.
+  replace (dst + (src - dst)) with src by lia.
+  assert (Ok : vmem_coord_ok m src x y = vmem_coord_ok m dst x y).
+  { unfold vmem_coord_ok. replace (src >=? 0) with true by lia. replace (dst >=? 0) with true by lia.
+    replace (src <? vmem_num_pages m) with true by lia. replace (dst <? vmem_num_pages m) with true by lia.
+    reflexivity. }
+  rewrite Ok. destruct (vmem_coord_ok m dst x y); [|reflexivity].
+  unfold reader, pcopy. cbn [vs_px vs_plane].
+  destruct (wf_kind m W) as [K | [K | K]]; rewrite K; cbn [Z.eqb Pos.eqb].
+  - unfold cga_rd. apply pack_byte_ext. intros k Hk. unfold copy_page. rewrite Z.eqb_refl. reflexivity.
+  - destruct (memZ _ _); [|reflexivity]. unfold ega_rd. apply pack_byte_ext. intros k Hk.
+    unfold copy_page. rewrite Z.eqb_refl. reflexivity.
+  - assert (Hpar : (a + (src - dst) * vm_page_size m) mod 2 = a mod 2).
+    { unfold wf_gmode in W. rewrite K in W. cbn [Z.eqb Pos.eqb] in W.
+      assert (HPS : vm_page_size m = 2 * (2 * vm_bank_size m)) by lia.
+      rewrite HPS. replace ((src - dst) * (2 * (2 * vm_bank_size m)))
+        with (((src - dst) * 2 * vm_bank_size m) * 2) by lia.
+      apply Z.mod_add. lia. }
+    rewrite Hpar. unfold tandy_rd. apply pack_byte_ext. intros k Hk. unfold copy_page. rewrite Z.eqb_refl. reflexivity.
+Qed.
